@@ -1,4 +1,9 @@
-"""C19 - constraint solver (structural part)."""
+"""C19 - constraint solver (structural part).
+
+Facts are stated per statement with `$meta` variables for locals (FragText.find), so that renaming,
+naming a sub-expression, extracting a helper, or swapping one idiom for an equivalent one
+(let-else / match, get_mut().unwrap() = / index assignment, iterator chain / loop) leaves them true.
+Where several spellings of one idiom exist they are listed as alternatives."""
 import re
 
 from .. import ast as A
@@ -10,38 +15,133 @@ def txt(n):
     return A.ftxt(n)
 
 
+def first(t, alts, bind=None):
+    """the first alternative fragment that matches -> bindings, else None"""
+    for f in alts:
+        m = t.fmatch(f, bind=bind)
+        if m is not None:
+            return m
+    return None
+
+
+def opt_or_continue(t, src, bind=None):
+    """`$I` := payload of the Option `src`, skipping the iteration when it is None"""
+    return first(
+        t,
+        [
+            "letSome($I)=%s else{continue;};".replace(" ", "") % src,
+            "let$I=match%s{Some($J)=>$J,None=>continue,};" % src,
+            "let$I=match%s{None=>continue,Some($J)=>$J,};" % src,
+            "ifletSome($I)=%s{" % src,
+        ],
+        bind,
+    )
+
+
+def free_filter_ok(closure):
+    """closure |(_, p)| that is true exactly for Parameter::Free"""
+    body = A.strip(closure["body"])
+    if body.get("k") == "Macro" and body["name"] == "matches":
+        pat = body.get("pat")
+        alts = [A.pat_variant(p)[0] for p in A.flatten_or(pat)] if pat else []
+        return alts == [["Parameter", "Free"]]
+    if body.get("k") == "Block" and len(body["stmts"]) == 1:
+        body = A.strip(A.stmt_expr(body["stmts"][0]) or {})
+    if body.get("k") == "Match":
+        verdict = {}
+        for arm in body["arms"]:
+            v = A.strip(arm["body"])
+            val = v.get("v") if v.get("k") == "Lit" and v.get("ty") == "bool" else None
+            for p in A.flatten_or(arm["pat"]):
+                segs, _ = A.pat_variant(p)
+                verdict["::".join(segs) if segs else "_"] = val
+        return verdict.get("Parameter::Free") == "true" and all(v == "false" for k, v in verdict.items() if k != "Parameter::Free") and len(verdict) >= 2
+    return False
+
+
+def method_chain(e):
+    """`a.b(x).c()` -> (root expr, [(method, args), ..]) innermost first"""
+    chain = []
+    e = A.strip(e)
+    while e is not None and e.get("k") == "MethodCall":
+        chain.append((e["method"], e["args"]))
+        e = A.strip(e["recv"])
+    return e, list(reversed(chain))
+
+
 def r1_free_fixed(rule, root=None):
     new = A.find_fn(SOL, "new", self_ty="Solver", root=root)
-    t = txt(new["body"])
-    if "letgrad_index:HashMap<Var,usize>=vars.iter().filter(|(_v,p)|matches!(p,Parameter::Free(..))).enumerate().map(|(i,(v,_p))|(*v,i)).collect();" in t:
+    # grad_index = vars.iter().filter(Free only).enumerate().map(|(i, (v, _))| (*v, i)).collect()
+    ok = False
+    for s in A.find(new["body"], "Let"):
+        if A.binding_name(s["pat"]) != "grad_index" or s.get("init") is None:
+            continue
+        base, chain = method_chain(s["init"])
+        names = [m for m, _a in chain]
+        if A.ident(base) == "vars" and names == ["iter", "filter", "enumerate", "map", "collect"]:
+            filt = chain[1][1][0] if chain[1][1] else None
+            mp = chain[3][1][0] if chain[3][1] else None
+            if filt and filt.get("k") == "Closure" and mp and mp.get("k") == "Closure" and free_filter_ok(filt):
+                m = txt(mp).fmatch("|($I,($V,$P))|(*$V,$I)") or txt(mp).fmatch("|($I,($V,_))|(*$V,$I)")
+                ok = m is not None
+    if ok:
         rule.ok("grad_index numbers exactly the Free parameters, densely", file=SOL, line=new["ln"])
     else:
         rule.bad("grad_index", "grad_index must be built from the Free parameters only (filter matches!(p, Parameter::Free(..))) and numbered densely", A.where(new))
     solve = A.find_fn(SOL, "solve", root=root)
     t = txt(solve["body"])
-    if "letout=solver.grad_index.into_iter().map(|(v,i)|(v,cur[i])).collect();Ok(out)}" in t:
+    # result: one entry (v, cur[i]) per (v, i) of grad_index, and that map is what is returned
+    m = first(
+        t,
+        [
+            "let$O=solver.grad_index.into_iter().map(|($V,$I)|($V,cur[$I])).collect();Ok($O)}",
+            "for($V,$I)insolver.grad_index{$O.insert($V,cur[$I]);}Ok($O)}",
+            "for($V,$I)in&solver.grad_index{$O.insert(*$V,cur[*$I]);}Ok($O)}",
+            "Ok(solver.grad_index.into_iter().map(|($V,$I)|($V,cur[$I])).collect())}",
+        ],
+    )
+    if m is not None:
         rule.ok("the result holds one value per grad_index entry, read from the slot that entry names", file=SOL, line=solve["ln"])
     else:
         rule.bad("result", "solve must return exactly {v: cur[i] for (v, i) in grad_index}: a value for each free parameter and no fixed one", A.where(solve))
-    if "for(v,i)in&solver.grad_index{letParameter::Free(f)=vars[v]else{unreachable!();};cur[*i]=f;}" in t:
+    # start: cur[i] = the Free value of the parameter whose grad_index is i (possibly in a helper)
+    m = first(
+        t,
+        [
+            "for($V,$I)in&solver.grad_index{letParameter::Free($F)=vars[$V]else{unreachable!();};$C[*$I]=$F;}",
+            "for($V,$I)insolver.grad_index{letParameter::Free($F)=vars[$V]else{unreachable!();};$C[*$I]=$F;}",
+            "for($V,$I)insolver.grad_index.iter(){letParameter::Free($F)=vars[$V]else{unreachable!();};$C[*$I]=$F;}",
+        ],
+    )
+    if m is not None:
         rule.ok("the starting point of free parameter i is its own Free(value)")
     else:
         rule.bad("start", "cur[i] must start at the Free value of the parameter whose grad_index is i", A.where(solve))
     jac = A.find_fn(SOL, "get_jacobian", self_ty="Solver", root=root)
     t = txt(jac["body"])
-    if "Parameter::Fixed(f)=>{slice.fill(Grad::new(*f,0.0,0.0,0.0));}" in t:
+    m = t.fmatch("Parameter::Fixed($F)=>{$S.fill(Grad::new(*$F,0.0,0.0,0.0));}")
+    m = t.fmatch("let$S=&mutself.input_grad[$I];", bind=m) if m is not None else None
+    if m is not None:
         rule.ok("get_jacobian: a fixed parameter is its given value with zero derivative")
     else:
-        rule.bad("fixed|jacobian", "in get_jacobian a Fixed(f) parameter must be Grad::new(f, 0, 0, 0) in every lane", A.where(jac))
+        rule.bad("fixed|jacobian", "in get_jacobian a Fixed(f) parameter must be Grad::new(f, 0, 0, 0) in every lane of its own row of input_grad", A.where(jac))
+    jm = m
     err = A.find_fn(SOL, "get_err", self_ty="Solver", root=root)
-    t = txt(err["body"])
-    if "Parameter::Fixed(p)=>{*f=*p;}" in t and "Parameter::Free(..)=>{letgi=self.grad_index[v];*f=(cur[gi]-delta[gi]);}" in t:
+    t2 = txt(err["body"])
+    m = t2.fmatch("Parameter::Fixed($P)=>{*$F=*$P;}")
+    m = t2.fmatch("Parameter::Free(..)=>{let$G=self.grad_index[$V];*$F=(cur[$G]-delta[$G]);}", bind=m) if m is not None else None
+    if m is None:
+        m = t2.fmatch("Parameter::Fixed($P)=>{*$F=*$P;}")
+        m = t2.fmatch("Parameter::Free(..)=>{*$F=(cur[self.grad_index[$V]]-delta[self.grad_index[$V]]);}", bind=m) if m is not None else None
+    m = t2.fmatch("let$F=&mutself.input_point[$I];", bind=m) if m is not None else None
+    if m is not None:
         rule.ok("get_err: fixed parameters keep their value; free ones are tried at cur - delta")
     else:
         rule.bad("fixed|err", "get_err must evaluate Fixed parameters at their value and Free ones at cur[gi] - delta[gi]", A.where(err))
-    for fn in (jac, err):
-        t = txt(fn["body"])
-        if "letSome(i)=tape.vars().get(v)else{continue;};" in t:
+    em = m
+    for fn, tt, mm in ((jac, t, jm), (err, t2, em)):
+        b = {"$I": mm["$I"]} if mm and "$I" in mm else None
+        if opt_or_continue(tt, "tape.vars().get($V)", b) is not None:
             rule.ok("%s binds each parameter at the index its tape assigns to that variable" % fn["name"])
         else:
             rule.bad("bind|%s" % fn["name"], "%s must look up each parameter's slot in this tape's own variable map" % fn["name"], A.where(fn))
@@ -49,43 +149,69 @@ def r1_free_fixed(rule, root=None):
 
 def r2_packing(rule, root=None):
     jac = A.find_fn(SOL, "get_jacobian", self_ty="Solver", root=root)
-    calls = [c for c in A.find(jac["body"], "Call") if (A.path_segs(c["func"]) or [])[-2:] == ["Grad", "new"] and len(c["args"]) == 4 and "if" in txt(c)]
+    body = A.inline_lets_deep(jac["body"])
+    calls = [c for c in A.find(body, "Call") if (A.path_segs(c["func"]) or [])[-2:] == ["Grad", "new"] and len(c["args"]) == 4 and "if" in txt(c)]
     if len(calls) != 1:
         rule.lost("the unit-seed Grad::new(..) in get_jacobian")
     else:
-        a = [txt(x) for x in calls[0]["args"]]
-        want = ["cur[gi]", "if((j*3)==gi){1.0}else{0.0}", "if(((j*3)+1)==gi){1.0}else{0.0}", "if(((j*3)+2)==gi){1.0}else{0.0}"]
-        if a == want:
-            rule.ok("writer: free parameter gi seeds lane (gi mod 3) of sample (gi div 3) with 1", file=SOL, line=calls[0]["ln"])
-        else:
-            rule.bad("pack|writer", "the unit seeds are %s; sample j must carry d/d(param 3j+k) in lane k, i.e. %s" % (a, want), A.where(jac, calls[0]))
-        loops = [l for l in A.find(jac["body"], "For") if any(n is calls[0] for n in A.walk(l["body"]))]
-        if loops and txt(loops[-1]["pat"]) in ("(j,v)",) and txt(loops[-1]["iter"]) == "slice.iter_mut().enumerate()":
-            rule.ok("writer: j enumerates the samples of the parameter's own row")
-        else:
+        # the sample index j enumerates the parameter's own row
+        binders = A.enclosing_binders(body, calls[0]) or []
+        j = None
+        if binders:
+            nm, it, node = binders[-1]
+            pat = node.get("pat") if node.get("k") == "For" else None
+            els = pat.get("elems") if pat and pat.get("k") == "PTuple" else None
+            src = A.iter_source(it[: -len(".enumerate()")]) if it.endswith(".enumerate()") else None
+            if els and len(els) == 2 and src is not None:
+                j = A.binding_name(els[0])
+                row = src
+        a = [str(txt(x)) for x in calls[0]["args"]]
+        if j is None:
             rule.bad("pack|writer-loop", "the seed loop must enumerate the samples of the parameter's row as j", A.where(jac))
+        else:
+            # the free parameter's own gradient index, however it is named
+            mg = txt(jac["body"]).fmatch("let$G=self.grad_index[$V];")
+            g = mg["$G"] if mg else "self.grad_index[v]"
+            want = ["cur[%s]" % g] + ["if(%s==%s){1.0}else{0.0}" % (lhs, g) for lhs in ("(%s*3)" % j, "((%s*3)+1)" % j, "((%s*3)+2)" % j)]
+            alt = ["cur[self.grad_index[v]]"] + [w.replace(g, "self.grad_index[v]") for w in want[1:]]
+            if a == want or a == alt:
+                rule.ok("writer: free parameter gi seeds lane (gi mod 3) of sample (gi div 3) with 1", file=SOL, line=calls[0]["ln"])
+                rule.ok("writer: j enumerates the samples of the parameter's own row")
+            else:
+                rule.bad("pack|writer", "the unit seeds are %s; sample j must carry d/d(param 3j+k) in lane k, i.e. %s" % (a, want), A.where(jac, calls[0]))
     t = txt(jac["body"])
-    if "forgiin0..self.grad_index.len(){*jacobian.get_mut((ti,gi)).unwrap()=out[0][(gi/3)].d((gi%3));}" in t:
+    m = first(
+        t,
+        [
+            "for$G in0..self.grad_index.len(){*jacobian.get_mut(($T,$G)).unwrap()=out[0][($G/3)].d(($G%3));}".replace(" ", ""),
+            "for$G in0..self.grad_index.len(){jacobian[($T,$G)]=out[0][($G/3)].d(($G%3));}".replace(" ", ""),
+        ],
+    )
+    if m is not None:
         rule.ok("reader: column gi of row ti is lane (gi mod 3) of sample (gi div 3) of output 0")
     else:
         rule.bad("pack|reader", "the Jacobian entry (ti, gi) must be out[0][gi / 3].d(gi % 3)", A.where(jac))
-    if "result[ti]=out[0][0].v;" in t:
+    mt = m
+    if t.fmatch("result[$T]=out[0][0].v;", bind={"$T": mt["$T"]} if mt else None) is not None:
         rule.ok("the residual of equation ti is the value of output 0")
     else:
         rule.bad("pack|residual", "result[ti] must be out[0][0].v", A.where(jac))
     new = A.find_fn(SOL, "new", self_ty="Solver", root=root)
     t = txt(new["body"])
-    if re.search(r"vec!\(Grad::from\(0f32\);grad_index\.len\(\)\.div_ceil\(3\)(\.max\(1\))?\)|vec!\[Grad::from\(0f32\);grad_index\.len\(\)\.div_ceil\(3\)", t) or "grad_index.len().div_ceil(3)" in t:
+    if "grad_index.len().div_ceil(3)" in t:
         rule.ok("batch width = ceil(free parameters / 3)")
     else:
         rule.bad("pack|width", "each gradient row must hold ceil(free / 3) samples", A.where(new))
-    if "letvar_count=vars.len().max(grad_tapes.iter().map(|t|t.vars().len()).max().unwrap_or(0));" in t:
+    if t.fmatch("vars.len().max(grad_tapes.iter().map(|$T|$T.vars().len()).max().unwrap_or(0))") is not None:
         rule.ok("scratch rows cover both the parameter count and the widest tape")
     else:
         rule.bad("pack|rows", "the scratch must have max(parameters, widest tape) rows", A.where(new))
     # Grad::d lanes are checked in C05.R3; Grad::new argument order v, dx, dy, dz
     g = A.find_fn("fidget-core/src/types/grad.rs", "new", self_ty="Grad", root=root)
-    if txt(g["body"]) == "{Self{v:v,dx:dx,dy:dy,dz:dz}}":
+    st = list(A.find(g["body"], "Struct"))
+    f = {x["name"]: str(txt(x["e"])) for x in st[0]["fields"]} if len(st) == 1 else {}
+    params = [A.binding_name(i["pat"]) for i in g["sig"]["inputs"] if isinstance(i, dict) and "pat" in i]
+    if params == ["v", "dx", "dy", "dz"] and f == {"v": "v", "dx": "dx", "dy": "dy", "dz": "dz"}:
         rule.ok("Grad::new(v, dx, dy, dz) stores its arguments under their own names")
     else:
         rule.bad("pack|grad-new", "Grad::new must store (v, dx, dy, dz) in that order", A.where(g))
@@ -93,40 +219,60 @@ def r2_packing(rule, root=None):
 
 def r3_exits(rule, root=None):
     solve = A.find_fn(SOL, "solve", root=root)
-    calls = A.linear_calls(solve)
     loops = [l for l in A.find(solve["body"], "For") if txt(l["iter"]) == "0.."]
     if len(loops) != 1:
         rule.lost("the `for i in 0..` iteration loop in solve")
         return
     body = loops[0]["body"]["stmts"]
     seq = [txt(s) for s in body]
-    i_jac = next((i for i, s in enumerate(seq) if s.startswith("solver.get_jacobian(&cur,&mutjacobian,&mutresult)")), None)
-    i_exit = next((i for i, s in enumerate(seq) if s.startswith("ifresult.iter().all(|v|(*v==0.0)){break;}")), None)
-    i_upd = next((i for i, s in enumerate(seq) if "(cur[gi]-=step[gi])" in s), None)
+
+    def idx(pred):
+        return next((i for i, s in enumerate(seq) if pred(s)), None)
+
+    i_jac = idx(lambda s: s.startswith("solver.get_jacobian(&cur,&mutjacobian,&mutresult)"))
+    i_exit = idx(lambda s: s.fmatch("ifresult.iter().all(|$V|(*$V==0.0)){break;}") is not None)
+    # the update: inline `cur[gi] -= step[gi]` or a same-file helper doing it (FragText follows helpers for bodies)
+    upd_frags = ["($C[$G]-=step[$G])", "($C[$G]-=$S[$G])"]
+    i_upd = idx(lambda s: any(A.ftxt({"k": "Block", "stmts": [body[seq.index(s)]], "ln": 0}).fmatch(f) is not None for f in upd_frags) or any(s.fmatch(f) is not None for f in upd_frags))
+    if i_upd is None:
+        # behind a helper call: find the statement whose callee's body does the update
+        for i, st in enumerate(body):
+            for c in list(A.find(st, "Call")) + list(A.find(st, "MethodCall")):
+                name = (A.path_segs(c["func"]) or [None])[-1] if c.get("k") == "Call" else c["method"]
+                callee = A._same_file_fn(solve, name) if name else None
+                if callee is not None and any(txt(callee["body"]).fmatch(f) is not None for f in upd_frags):
+                    i_upd = i
     if i_jac is not None and i_exit is not None and i_upd is not None and i_jac < i_exit < i_upd:
         rule.ok("an all-zero residual ends the iteration before anything is changed", file=SOL, line=body[i_exit]["ln"])
     else:
         rule.bad("exit|zero", "solve must evaluate the residuals, break when all are exactly zero, and only afterwards touch `cur`", A.where(solve, loops[0]))
     t = txt(solve["body"])
     # no free parameters: nothing to evaluate (zero-width gradient batch)
-    pre = [txt(s) for s in solve["body"]["stmts"]]
     i_loop = next(i for i, s in enumerate(solve["body"]["stmts"]) if A.strip(A.stmt_expr(s) or {}) is loops[0])
-    guard = [i for i, s in enumerate(pre[:i_loop]) if s.startswith("ifcur.is_empty(){returnOk(HashMap::new());}")]
+    pre = [txt(s) for s in solve["body"]["stmts"][:i_loop]]
+    guard = [s for s in pre if s.startswith("ifcur.is_empty(){returnOk(HashMap::new());}")]
     new = A.find_fn(SOL, "new", self_ty="Solver", root=root)
     wide = ".div_ceil(3).max(1)" in txt(new["body"])
     if guard or wide:
         rule.ok("with no free parameter the zero-width gradient batch is never read")
     else:
         rule.bad("exit|nofree", "with every parameter Fixed the gradient batch has width 0 and get_jacobian reads out[0][0]: solve must return early (or the batch must be at least one wide)", A.where(solve))
-    if "letmutchanged=false;forgiin0..solver.grad_index.len(){letprev=cur[gi];(cur[gi]-=step[gi]);(changed|=(prev!=cur[gi]));}" in t:
+    m = first(
+        t,
+        [
+            "letmut$C=false;for$G in0..solver.grad_index.len(){let$P=cur[$G];(cur[$G]-=step[$G]);($C|=($P!=cur[$G]));}".replace(" ", ""),
+            "letmut$C=false;for$G in0..cur.len(){let$P=cur[$G];(cur[$G]-=step[$G]);($C|=($P!=cur[$G]));}".replace(" ", ""),
+        ],
+    )
+    if m is not None:
         rule.ok("the step is applied to every free parameter and `changed` compares old with new")
     else:
         rule.bad("update", "every free parameter must be updated by its own step component and `changed` computed from old vs new", A.where(solve))
-    if "leterr=solver.get_err(&cur,delta.as_slice());" in t and "break(err,delta);" in t:
+    if t.fmatch("let$E=solver.get_err(&cur,$D.as_slice());") is not None and t.fmatch("break($E,$D);") is not None:
         rule.ok("the accepted step is the one whose error was evaluated")
     else:
         rule.bad("step", "the step taken must be the delta whose error was accepted", A.where(solve))
-    if "letmutjacobian=nalgebra::DMatrix::repeat(tapes.len(),cur.len(),0f32);letmutresult=nalgebra::DVector::repeat(tapes.len(),0f32);" in t:
+    if "nalgebra::DMatrix::repeat(tapes.len(),cur.len(),0f32)" in t and "nalgebra::DVector::repeat(tapes.len(),0f32)" in t:
         rule.ok("Jacobian is (equations x free parameters); residual has one entry per equation")
     else:
         rule.bad("shapes", "the Jacobian must be equations x free parameters and the residual one per equation", A.where(solve))
